@@ -100,6 +100,26 @@ ADD10 = {
  "C20": "Element size 8 bytes as a further build variant.",
 }
 
+# workloads added after the eleventh round (DESIGN.md 14.12c)
+MIG = " Thread-migration histories: every operation runs on one of three worker threads in turn (objects created on one thread, used on another, dropped on a third)."
+FEA = " A further build variant enables the library's optional cargo features (tracing - with a subscriber on every second worker thread -, serde)."
+ADD11 = {
+ "C01": MIG + FEA, "C02": MIG + " Storms of 1,030-2,000 simultaneously registered wakers before an update or the close." + FEA,
+ "C03": MIG + FEA, "C04": MIG + " (incl. an async-lock write guard taken on one thread and dropped on another)." + FEA,
+ "C05": MIG + " Giant vectors (up to 9,500 items, appends of thousands of values, 40 subscribers) and scale histories (thousands of messages waiting in channels of thousands, transactions of 1,100-5,000 diffs)." + FEA,
+ "C06": MIG + " Giant / scale histories as in C05." + FEA, "C07": " Giant / scale histories as in C05." + FEA,
+ "C08": MIG + FEA,
+ "C09": " Giant vectors with limits in the thousands; scale histories incl. bulk loads of 2,200-6,000 push_backs handled by one poll." + FEA,
+ "C10": " Giant / scale histories as in C09." + FEA, "C11": " Giant / scale histories as in C09." + FEA,
+ "C12": " Giant vectors under two-stage chains, chains of four to seven stages, scale histories." + FEA,
+ "C13": FEA.strip(), "C14": MIG + FEA,
+ "C15": " Giant / scale histories as in C09 (batches of thousands of diffs); pops on an empty view do not end a history, the bound is judged after the diffs that follow." + FEA,
+ "C16": MIG + FEA, "C17": " Giant / scale histories as in C05 (thousands of middle inserts / removes, traversals over thousands of items)." + FEA,
+ "C18": " Targets and payloads of 1,023-70,000 values." + FEA,
+ "C19": MIG + " 520-2,000 handles alive at once, released newest-first or in random order, counts compared after every step." + FEA,
+ "C20": MIG + FEA,
+}
+
 checks = []
 for p in props:
     pid = p["id"]
@@ -112,6 +132,8 @@ for p in props:
         text = text + " " + ADD9[pid]
     if pid in ADD10:
         text = text + " " + ADD10[pid].strip()
+    if pid in ADD11:
+        text = text + " " + ADD11[pid].strip()
     checks.append({
         "property_id": pid,
         "quick_cmd": f"./check {pid} --tier quick",
@@ -142,6 +164,7 @@ m = {
   {"name": "misc", "path": "harness/src/runners_misc.rs", "serves_properties": ["C18","C20"], "kind_free_text": "exhaustive diff map/apply execution; bulk drop-accounting runs"},
   {"name": "unwind", "path": "harness/src/runners_unwind.rs", "serves_properties": ["C01","C03","C05","C06","C07","C08","C16","C19","C20"], "kind_free_text": "histories in which a user callback or a trait impl of the element type panics inside a library call and is caught; drop accounting plus what the properties say about the calls that follow"},
   {"name": "pairs", "path": "harness/src/runners_pairs.rs", "serves_properties": ["C05","C07","C09","C14"], "kind_free_text": "two objects side by side: two adapters driven by one limit observable (subscriber polled, then cloned); two vectors with interleaved transactions"},
+  {"name": "migrate", "path": "harness/src/runners_migrate.rs", "serves_properties": ["C01","C02","C03","C04","C05","C06","C08","C14","C16","C19","C20"], "kind_free_text": "histories executed on three worker threads in turn, one operation at a time (objects migrate between threads), model oracles + process-wide drop table"},
   {"name": "long", "path": "harness/src/runners_long.rs", "serves_properties": ["C01","C02","C03","C05","C06","C07","C09","C10","C11","C12","C13","C14","C15","C16","C17","C19"], "kind_free_text": "marathons: tens of thousands of operations on one long-lived object, judged by the vec / obs / adp engines"},
   {"name": "adp", "path": "harness/src/engine_adp.rs", "serves_properties": ["C09","C10","C11","C12","C13","C14","C15","C20"], "kind_free_text": "adapter/chain executor with transparent taps, event log and per-stage oracles"},
  ],
